@@ -315,7 +315,10 @@ def scenEvDec (ks ps obs : String) : Verdict :=
         -- rejected although the model accepts
         match Spec.refDecode k p with
         | some _ => .prop "C11" "a packet the reference decoder accepts is rejected" full
-        | none => .corr full
+        | none =>
+          -- a non-canonical packet (e.g. a flag byte other than 0/1) that the code under verification materialises:
+          -- rejecting it instead violates no property
+          if iClass == "err" then .note "a non-canonical packet the model accepts is rejected" else .corr full
   | _, _ => .bad "parse"
 
 def scenEvCross (ps obs : String) : Verdict :=
@@ -328,7 +331,14 @@ def scenEvCross (ps obs : String) : Verdict :=
       match parseHexNat obs with
       | some im =>
         let bits := (List.range 16).filter fun i => im / 2 ^ i % 2 == 1
-        if bits.length > 1 then .prop "C12" "more than one kind accepts the packet" s else .corr s
+        if bits.length > 1 then .prop "C12" "more than one kind accepts the packet" s
+        else
+          -- kinds on which they differ: harmless when the model accepts a non-canonical packet that is rejected
+          let harmless := Kind.all.all fun k =>
+            let mb := mask / 2 ^ kindIdx k % 2 == 1
+            let ib := im / 2 ^ kindIdx k % 2 == 1
+            mb == ib || (mb && !ib && (Spec.refDecode k p).isNone)
+          if harmless then .note "a non-canonical packet the model accepts is rejected" else .corr s
       | none => .bad "mask"
   | none => .bad "parse"
 
@@ -615,7 +625,20 @@ def scenE2e (toks : List String) (obs : String) : Verdict :=
           | .call t p => some ("h" ++ toString t ++ "/" ++ classify p)
           | _ => none
         let ans := "ok " ++ joinOr log ","
+        -- no property fixes the order among the handlers of one packet: sort runs of calls with the same event
+        let canonRuns (l : List String) : List String :=
+          let ev (x : String) : String := String.intercalate "/" ((x.splitOn "/").drop 1)
+          let rec go (l : List String) (run : List String) (acc : List String) : List String :=
+            match l with
+            | [] => acc ++ (run.toArray.qsort (· < ·)).toList
+            | x :: t =>
+              match run with
+              | [] => go t [x] acc
+              | y :: _ => if ev x == ev y then go t (x :: run) acc else go t [x] (acc ++ (run.toArray.qsort (· < ·)).toList)
+          go l [] []
+        let implLog := sepList ((obs.splitOn " ").getD 1 "-") ","
         if ans == obs then .ok
+        else if obs.startsWith "ok " && canonRuns implLog == canonRuns log then .note "handlers of one packet invoked in another order"
         else .prop "C01" "the peer's handlers do not observe exactly the events sent to them, once, in order, intact" ans
     | _, _, _, _ => .bad "parse"
   | _ => .bad "parse"
@@ -628,6 +651,29 @@ def opProp (op : String) : String :=
   else if op.startsWith "tick" then "C15"
   else if op.startsWith "send" then "C16"
   else "C18"
+
+/-- the log segment of one operation with the handler blocks (a `c<token>/…` entry and the transmissions that follow it)
+in a canonical order: no property fixes the order in which the handlers of one packet are invoked -/
+def canonSeg (sends : Nat → Nat) (seg : List String) : List String :=
+  -- which transmission met which link answer depends on the invocation order: compare the transmissions without
+  -- their answers inside the blocks, and the sequence of answers separately; a block is a `c<token>/…` entry and the
+  -- `sends token` transmissions its callback makes; runs of consecutive blocks are sorted
+  let strip (x : String) : String := if x.startsWith "tok/" || x.startsWith "ter/" then "t/" ++ (x.drop 4).toString else x
+  let answers := seg.filterMap fun x => if x.startsWith "tok/" then some "o" else if x.startsWith "ter/" then some "e" else none
+  let tokenOf (x : String) : Nat := (((x.drop 1).toString.splitOn "/").headD "").toNat?.getD 0
+  let flush (run : List String) : List String := (run.toArray.qsort (· < ·)).toList
+  let rec go (l : List String) (fuel : Nat) (run : List String) (acc : List String) : List String :=
+    match fuel with
+    | 0 => acc ++ flush run ++ l
+    | fuel + 1 =>
+      match l with
+      | [] => acc ++ flush run
+      | x :: t =>
+        if x.startsWith "c" then
+          let k := sends (tokenOf x)
+          go (t.drop k) fuel ((String.intercalate "," (x :: (t.take k).map strip)) :: run) acc
+        else go t fuel [] (acc ++ flush run ++ [strip x])
+  go seg (seg.length + 1) [] [] ++ ["answers:" ++ String.join answers]
 
 def scenProto (addr rxq txq ops obs : String) : Verdict :=
   match runProtoSteps addr rxq txq ops with
@@ -646,15 +692,23 @@ def scenProto (addr rxq txq ops obs : String) : Verdict :=
           let endOf (j : Nat) : Nat := (((rs.getD j "").splitOn "#").getD 1 "0").toNat?.getD 0
           let lo := if i = 0 then 0 else endOf (i - 1)
           (lg.drop lo).take (endOf i - lo)
+        -- transmissions made by each handler's callback, by token (from the `add` operations)
+        let sendsTab : List (Nat × Nat) := opl.filterMap fun o =>
+          match o.splitOn "/" with
+          | ["add", _, tok, sd] => some (tok.toNat?.getD 0, if sd == "-" then 0 else (sd.splitOn "+").length)
+          | _ => none
+        let sends (t : Nat) : Nat := ((sendsTab.find? (·.1 == t)).map (·.2)).getD 0
         let firstBad := (List.range opl.length).find? fun i =>
-          ires.getD i "?" != results.getD i "?" || seg ilog ires i != seg log results i
+          ires.getD i "?" != results.getD i "?" || canonSeg sends (seg ilog ires i) != canonSeg sends (seg log results i)
         match firstBad with
         | some i =>
           let pid := opProp (opl.getD i "")
           let extra := if pid != "C17" && (opl.take i).any (fun o => o.startsWith "add" || o.startsWith "rm") then ",~C17" else ""
           .prop (pid ++ extra) ("operation " ++ toString i ++ " (" ++ ((opl.getD i "").splitOn "/").headD "" ++
             ") differs from the specified dispatch/routing/registry/exchange behaviour") a
-        | none => .prop "C15,C16,C17,C18" "log differs" a
+        | none =>
+          if ires.length == results.length then .note "handlers of one packet invoked in another order" else
+          .prop "C15,C16,C17,C18" "log differs" a
       | _ => .bad "observation"
 
 /-! ## dispatch -/
